@@ -301,6 +301,10 @@ def tr_expr(e: ast.AST, c: Ctx) -> tuple[str, str]:
             raise Unsupported("generator form")
         if f == "self.category_distance":
             return call_generated("category_distance", e, c)
+        if f == "np.asarray" and len(e.args) == 1 and len(e.keywords) == 1 and ast.unparse(e.keywords[0]) == "dtype=float":
+            # conversion of a numeric array to float64: the identity on exact numbers (the narrow-dtype overflow it
+            # prevents is a float / integer matter the checks measure, not the proofs)
+            return tr_expr(e.args[0], c)
         if f == "np.concatenate":
             args = []
         else:
